@@ -5,7 +5,7 @@ Import ListNotations.
 Open Scope string_scope.
 
 
-(* saml2/time_util.py:before, lines 262-276 *)
+(* saml2/time_util.py:before, lines 265-279 *)
 Definition src2_before (now_ : pyval) (parse_time : pyval -> pyval) (v_point : pyval) : pyval :=
   (match p2_branch (p2_not v_point) with
    | BTrue => (PBool true)
@@ -26,7 +26,7 @@ Definition src2_before (now_ : pyval) (parse_time : pyval -> pyval) (v_point : p
    | BErr => PErr
    end).
 
-(* saml2/time_util.py:after, lines 279-284 *)
+(* saml2/time_util.py:after, lines 282-287 *)
 Definition src2_after (now_ : pyval) (parse_time : pyval -> pyval) (v_point : pyval) : pyval :=
   (match p2_branch (p2_not v_point) with
    | BTrue => (PBool true)
@@ -133,7 +133,7 @@ Definition src2_add_information (set_ : pyval -> pyval -> pyval -> pyval -> pyva
    (py_bind (py_bind v_name_id (fun a_2 => (py_bind v_issuer (fun a_3 => (py_bind v_session_info (fun a_4 => (py_bind (p2_getitem v_session_info (PStr "not_on_or_after")) (fun a_5 => (set_ (p2_attr v_self "cache") a_2 a_3 a_4 a_5))))))))) (fun _ =>
    v_name_id))))))))))).
 
-(* saml2/response.py:AuthnResponse.session_info, lines 1103-1133 *)
+(* saml2/response.py:AuthnResponse.session_info, lines 1110-1140 *)
 Definition src2_session_info (issuer_ : pyval -> pyval) (authn_info_ : pyval -> pyval) (authz_info_ : pyval -> pyval) (v_self : pyval) : pyval :=
   let v_nooa := PErr in
   let v_authn_statement := PErr in
